@@ -1,7 +1,69 @@
-/- placeholder driver for C03: replaced when the model is built -/
-import AcnModel.Wire
-open Lean Acn.Wire
+/-
+  Driver for C03 (physical bounds): one battery, one or more histories, the observable state
+  after every call.  (Drivers/C14.lean is the same program; the two properties share the model.)
+  request : {"batt": {two,cap,init,maxp,noise,ts,calc}, "ev": bool,
+             "runs": [[{"op":"charge","p","V","T","nu"} | {"op":"reset","init": null | bits}, …], …]}
+  answer  : {"ctor": null | "ValueError",
+             "runs": [[{"err": null | "ValueError" | "ZeroDivisionError", "rate", "charge", "power"
+                        [, "delivered", "evrate"]}, …], …]}
+  Every run starts from a freshly constructed battery.  Without "ev" a run is executed by
+  `Battery.runOps` (the function the history theorems are about); with "ev" the calls go
+  through `Evse.Ev.charge` and `reset` acts on the EV's battery.
+-/
+import AcnModel.WireModels
+open Lean Acn Acn.Wire Acn.Battery Acn.Evse
 
-def handle (_ : Json) : Except String Json := throw "driver for C03 not built yet"
+def battErrName : Battery.Err → String
+  | .valueError => "ValueError"
+  | .zeroDivision => "ZeroDivisionError"
+
+def parseOp (o : Json) : Except String (Op Float) := do
+  let op ← getStr o "op"
+  if op == "charge" then
+    pure (.charge (← getF o "p") (← getF o "V") (← getF o "T") (← getF o "nu"))
+  else if op == "reset" then
+    pure (.reset (← getOpt o "init" asF))
+  else throw s!"unknown op {op}"
+
+def jStep (b : Batt Float) (r : Except Battery.Err Float) (extra : List (String × Json)) : Json :=
+  let (err, rate) := match r with
+    | .ok x => (Json.null, x)
+    | .error e => (jS (battErrName e), 0.0)
+  Json.mkObj ([("err", err), ("rate", jF rate), ("charge", jF b.charge), ("power", jF b.power)] ++ extra)
+
+def runPlain (b : Batt Float) (ops : List (Op Float)) : List Json :=
+  (runOps b ops).map fun (b', r) => jStep b' r []
+
+/-- the same history through an EV (ev.py:130-144) -/
+def runEv (e : Ev Float) : List (Op Float) → List Json
+  | [] => []
+  | .charge p V T ν :: os =>
+    match e.charge p V T ν with
+    | .ok e' => jStep e'.batt (.ok e'.rate) [("delivered", jF e'.delivered), ("evrate", jF e'.rate)] :: runEv e' os
+    | .error x => jStep e.batt (.error x) [("delivered", jF e.delivered), ("evrate", jF e.rate)] :: runEv e os
+  | .reset i :: os =>
+    match reset e.batt i with
+    | .ok b' =>
+      let e' := { e with batt := b' }
+      jStep b' (.ok 0.0) [("delivered", jF e'.delivered), ("evrate", jF e'.rate)] :: runEv e' os
+    | .error x => jStep e.batt (.error x) [("delivered", jF e.delivered), ("evrate", jF e.rate)] :: runEv e os
+
+def handle (j : Json) : Except String Json := do
+  let b0 ← parseBatt (← j.getObjVal? "batt")
+  let ev := (j.getObjVal? "ev" >>= Json.getBool?).toOption.getD false
+  let runs ← getArr j "runs"
+  match b0 with
+  | .error e => pure (Json.mkObj [("ctor", jS (battErrName e)), ("runs", Json.arr #[])])
+  | .ok b =>
+    let mut outs : Array Json := #[]
+    for r in runs do
+      let ops ← (← asArr r).mapM parseOp
+      let steps :=
+        if ev then
+          runEv { session := "s", station := "S", arrival := 0, departure := 1, estDeparture := 1,
+                  requested := 0.0, delivered := 0.0, rate := 0.0, batt := b } ops
+        else runPlain b ops
+      outs := outs.push (Json.arr steps.toArray)
+    pure (Json.mkObj [("ctor", Json.null), ("runs", Json.arr outs)])
 
 def main : IO Unit := runDriver handle
